@@ -31,6 +31,8 @@ func init() {
 			c07LockSections(r)
 			c07ClientTargetsOwner(r)
 			c04ReplicaVerbatim(r)
+			putDoesNotRetain(r)
+			c02ReplicateBeforeAck(r)
 		},
 	})
 }
